@@ -90,6 +90,13 @@ func discharge(ob *Obligation, dir string, idx int, timeoutS int, cross bool) {
 	}
 	r := runSolver(solvers[0], file, timeoutS)
 	atomic.AddInt64(&solverSeconds, r.ms)
+	if r.res == "sat" && len(ob.Full) > len(ob.Asserts) {
+		// the filtered query dropped hypotheses: confirm the model against all of them
+		script = ob.ctx.Script(ob.Full, true)
+		os.WriteFile(file, []byte(script), 0o644)
+		r = runSolver(solvers[0], file, timeoutS)
+		atomic.AddInt64(&solverSeconds, r.ms)
+	}
 	if r.res != "sat" && r.res != "unsat" {
 		// race the other two
 		ch := make(chan solveResult, 2)
